@@ -3,5 +3,6 @@ go build -modfile="$scratch/mod/go.mod" -o "$scratch/bin/rewrite" ./mc/rewrite |
 files=$(cd "$VERIF_REPO" && ls reader/logql/logql_transpiler_v2/internal_planner/*.go | grep -v _test.go)
 "$scratch/bin/rewrite" -repo "$VERIF_REPO" -out "$scratch/inst" -overlay "$scratch/overlay.json" $files \
    reader/logql/logql_transpiler_v2/shared/planner_clickhouse_getter.go \
+   reader/logql/logql_transpiler_v2/shared/errors.go \
    reader/logql/logql_transpiler_v2/planner_from_fix.go reader/logql/logql_transpiler_v2/planner_zero_eater.go \
    reader/logql/logql_transpiler_v2/planner_matrix_step.go 2>"$scratch/rewrite.log" || { cat "$scratch/rewrite.log" >&2; return 1; }
